@@ -240,6 +240,10 @@ impl PixmapMut<'_> {
             // TODO: ignore paths outside the pixmap
 
             if let Some(tiler) = DrawTiler::new(self.width(), self.height()) {
+                if !mask_matches_size(mask, self.width(), self.height()) {
+                    return;
+                }
+
                 let mut path = path.clone(); // TODO: avoid cloning
                 let mut paint = paint.clone();
 
@@ -370,6 +374,10 @@ impl PixmapMut<'_> {
             }
 
             if let Some(tiler) = DrawTiler::new(self.width(), self.height()) {
+                if !mask_matches_size(mask, self.width(), self.height()) {
+                    return;
+                }
+
                 let mut path = path.clone(); // TODO: avoid cloning
                 let mut paint = paint.clone();
 
@@ -538,6 +546,18 @@ impl PixmapMut<'_> {
             pixmap_src,
             &mut self.as_subpixmap(),
         );
+    }
+}
+
+// A tile is drawn with `mask.submask(tile)`, which is `None` for a tile the mask does not cover:
+// such a tile would be drawn unmasked. Like the non-tiled case, skip the whole call instead.
+fn mask_matches_size(mask: Option<&Mask>, width: u32, height: u32) -> bool {
+    match mask {
+        Some(mask) if mask.width() != width || mask.height() != height => {
+            log::warn!("Pixmap and Mask are expected to have the same size");
+            false
+        }
+        _ => true,
     }
 }
 
